@@ -209,7 +209,7 @@ def check(ctx):
             add(e)
         k += 1
     # cf_safe_name on every string of length 1..3 (quick) / 1..4 over a class-covering alphabet
-    alpha = ["a", "Z", "1", "_", ".", "-", " "]
+    alpha = ["a", "Z", "1", "_", ".", "-", " ", "\u00e9", "\u0663"]      # (a non-ASCII letter and a non-ASCII digit)
     for ln in range(1, ctx.pick(3, 5) + 1):
         for tup in itertools.product(alpha, repeat=ln):
             raw = "".join(tup)
